@@ -190,15 +190,42 @@ def modify [DecidableEq C] (s : State K C) (modifier modified : K) (access : Acc
         else .ok s
       | none => .error (.unrecognisedMember modified)
 
-/-- `state::promote`. -/
+/-- `is_active_manager` (helper added by the `fix:` commit for C33). -/
+def isActiveManager (s : State K C) (actor : K) : Bool :=
+  match get? s actor with
+  | some a => a.isMember && a.isManager
+  | none => false
+
+/-- `state::promote` (repaired tree): the no-op shortcut for an already-manager target is only taken
+    when the promoter is an active manager and the target is active; otherwise `modify` reports the
+    error. -/
 def promote [DecidableEq C] (s : State K C) (promoter promoted : K) (access : Access C) :
+    Except (Err K) (State K C) :=
+  match get? s promoted with
+  | some m =>
+    if m.isManager && m.isMember && isActiveManager s promoter then .ok s
+    else modify s promoter promoted access
+  | none => .error (.unrecognisedMember promoted)
+
+/-- `state::demote` (repaired tree). -/
+def demote [DecidableEq C] (s : State K C) (demoter demoted : K) (access : Access C) :
+    Except (Err K) (State K C) :=
+  match get? s demoted with
+  | some m =>
+    if m.isPuller && m.isMember && isActiveManager s demoter then .ok s
+    else modify s demoter demoted access
+  | none => .error (.unrecognisedMember demoted)
+
+/-- `state::promote` as on the pinned tree: an already-manager target returned `Ok(state)` before
+    any check of the promoter (or of the target being active). -/
+def promoteOrig [DecidableEq C] (s : State K C) (promoter promoted : K) (access : Access C) :
     Except (Err K) (State K C) :=
   match get? s promoted with
   | some m => if m.isManager then .ok s else modify s promoter promoted access
   | none => .error (.unrecognisedMember promoted)
 
-/-- `state::demote`. -/
-def demote [DecidableEq C] (s : State K C) (demoter demoted : K) (access : Access C) :
+/-- `state::demote` as on the pinned tree. -/
+def demoteOrig [DecidableEq C] (s : State K C) (demoter demoted : K) (access : Access C) :
     Except (Err K) (State K C) :=
   match get? s demoted with
   | some m => if m.isPuller then .ok s else modify s demoter demoted access
